@@ -290,6 +290,13 @@ def run(ck):
         ok = any(f.nodes[i].get('callee', '').endswith('to_big_endian_bytes') for i in f.walk()) and \
             any(f.nodes[i].get('callee', '').endswith('::size') for i in f.walk())
         ck.ob('C19.sib', 'C19.sib/length-prefix-' + tag, ok, f.loc(), 'update_length_prefixed (%s) hashes to_big_endian_bytes(data.size()) then the data' % tag)
+        from sa.paths import Cfg as _Cfg
+        ups_ = [i for i in f.walk() if (f.nodes[i].get('callee') or '').endswith('Sha256::update') and
+                any((f.nodes[j].get('callee') or '').endswith('to_big_endian_bytes') for j in value_sources(f, f.call_args(i)[0]))]
+        cfg_ = _Cfg.of(f)
+        wit_ = cfg_.must_pass_from((cfg_.entry, -1), lambda e, s_=set(ups_): e in s_ or any(f.is_in(x, e) for x in s_) and f.nodes[e]['k'] == 'ExprWithCleanups') if ups_ else ['no update(length bytes)']
+        ck.ob('C19.sib', 'C19.sib/length-prefix-always-' + tag, wit_ is None, f.loc(),
+              'update_length_prefixed (%s) hashes the 8-byte length on every path, also for an empty field (field boundaries stay unambiguous)' % tag, wit_)
     sd = PS.fn(SPA + 'pow_digest')
     SW = SP + 'StoreWorkInput::'
     digest_fields(ck, sd, 'pow_digest(store)', [SW + 'chunk_id', SW + 'payload_size', SW + 'filename_hint', 'param:nonce'])
@@ -344,5 +351,36 @@ def run(ck):
                     caps[q.split('::')[-1]] = P.global_const(g)
                 except AnalysisBroken:
                     pass
+    # the store validator caps the demanded difficulty exactly like the solver: whatever difficulty is asked, the number of leading
+    # zero bits it requires is min(difficulty, 24) (N1: value of the right operand of the final `zeros >= difficulty` test)
+    from sa.absint2 import Analyzer
+    from sa.lin import Lin
+    sv_ = PS.fn(SP + 'store_pow_valid')
+    seen_cmp = {'n': 0, 'bad': None}
+
+    def hook(an_, fn_, node_, st_, fr_):
+        if fn_ is not sv_:
+            return
+        c_ = comparison(fn_, fn_.kids(node_)[0])
+        if not c_ or c_[0] not in ('>=', '<='):
+            return
+        dnode = c_[2] if c_[0] == '>=' else c_[1]
+        for s2_, vals_ in an_.silent(lambda: an_.evs(fn_, [dnode], st_.copy(), fr_), fr_):
+            d_eff = vals_[0]
+            d_in = an_.param_values[2]
+            seen_cmp['n'] += 1
+            ok_ = isinstance(d_eff, Lin) and isinstance(d_in, Lin) and s2_.cons.entails_le(d_eff - 24) and s2_.cons.entails_le(d_eff - d_in)
+            if ok_:
+                s3_ = s2_.copy()
+                s3_.cons.add_le(d_in - 24)
+                ok_ = s3_.cons.is_unsat() or s3_.cons.entails_eq(d_eff - d_in)
+            if not ok_ and seen_cmp['bad'] is None:
+                seen_cmp['bad'] = (node_, d_eff)
+    an_sv = Analyzer(PS, inline=lambda q: False)
+    an_sv.return_hook = hook
+    an_sv.run(sv_)
+    ck.ob('C19.caps', 'C19.caps/store-validator-clamps', seen_cmp['n'] >= 1 and seen_cmp['bad'] is None, sv_.loc(seen_cmp['bad'][0]) if seen_cmp['bad'] else sv_.loc(),
+          'store_pow_valid demands min(difficulty, 24) leading zero bits for every requested difficulty, as compute_store_pow solves for '
+          '(%d comparison state(s)%s)' % (seen_cmp['n'], '' if seen_cmp['bad'] is None else '; demanded %r' % (seen_cmp['bad'][1],)))
     ck.floor('C19.caps', 'difficulty caps', len(caps), 2)
     ck.ob('C19.caps', 'C19.caps/24', all(v == 24 for v in caps.values()), '', 'PoW difficulty caps equal 24 (found %s)' % caps)
